@@ -3,7 +3,12 @@ import kprop
 import prop_asm
 
 PROP = 'C07'
-SLOW_ROWS = ()
+# address rows that take more than ~2 minutes of CBMC time each (measured on this machine, up to 15 GB): thorough tier only.
+# The 64-bit address rows (35-100 s) stay in the quick tier and exercise Address::{reg,offset,index,array,rip} + emit_address completely.
+SLOW_ROWS = ('testl_ai', 'cmpl_ai', 'movsd_ar', 'cmpxchgl_ar', 'movzxb_ra', 'movb_ai', 'vandpd_ra', 'xaddl_ar', 'lock_cmpxchgl_ar', 'andps_ra',
+             'movsd_ra', 'movaps_ar', 'movss_ar', 'testb_ai', 'movl_ar', 'movl_ai', 'movb_ra', 'cmpb_ai', 'movups_ar', 'vandps_ra', 'movss_ra',
+             'movsxbl_ra', 'xchgb_ar', 'lock_xaddl_ar', 'xorpd_ra', 'testl_ar', 'cmpl_ar', 'vmovsd_ar', 'xorps_ra', 'vmovss_ra', 'vmovsd_ra',
+             'vxorps_ra', 'vmovss_ar', 'vxorpd_ra', 'cmpb_ar', 'movl_ra', 'movb_ar', 'cmpq_ai', 'xchgl_ar')
 
 
 def run(tier):
@@ -19,7 +24,11 @@ def run(tier):
         dict(row='addq_rr', contract='for dest, src in all 16 GPRs: bytes decode to exactly one instruction ADD r/m64 with the requested operands'),
     ]
     not_decided = ['the Dora-side assembler', 'label distances beyond the bound']
-    return prop_asm.run(PROP, 'x64', tier, assumptions, samples, not_decided, slow=SLOW_ROWS)
+    # quick tier: label rows (bounded distance) are left to the thorough tier; jumps to labels are decided for ALL distances by the
+    # Verus unit c07_jumps (jmp / jcc / jmp_near / jcc_near / resolve_jumps)
+    is_label_row = lambda r: r.endswith(('__fwd', '__bwd'))
+    return prop_asm.run(PROP, 'x64', tier, assumptions, samples, not_decided, slow=SLOW_ROWS,
+                        extra_steps=prop_asm.verus_unit_step('c07_jumps.vspec'), quick_skip=is_label_row)
 
 
 def replay(rp):
